@@ -140,6 +140,14 @@ StripSGR(s, i) == IF i > Len(s) THEN <<>>
                     THEN StripSGR(s, SgrEnd(s, i + 2) + 1)
                   ELSE <<s[i]>> \o StripSGR(s, i + 1)
 
+DistinctLabels(st) == IF "labels" \in DOMAIN st /\ st.labels # <<>> THEN st.labels ELSE <<st.label>>
+RECURSIVE DistinctWalk(_, _, _, _)
+DistinctWalk(ls, k, L, mem) ==
+  IF k > Len(ls) THEN [keep |-> k > 1, mem |-> mem]
+  ELSE IF ~Has(L, ls[k]) THEN [keep |-> TRUE, mem |-> mem]
+  ELSE LET key == <<ls[k], Get(L, ls[k])>> IN
+       IF key \in mem THEN [keep |-> FALSE, mem |-> mem] ELSE DistinctWalk(ls, k + 1, L, mem \cup {key})
+
 \* ---- one stage.  Result: keep, line, L, mem; open: the step is outside the modelled grammar (entry not compared);
 \* lopen: labels unconstrained (malformed input: only __error__ is required); vopen: names whose VALUE is left open;
 \* opt: names that may be absent (if present they carry the stated value)
@@ -191,9 +199,10 @@ Stage(st, mem, rec, line, L) ==
          IN IF ~m.found THEN R0(TRUE, line, L, mem, FALSE)
             ELSE [keep |-> TRUE, line |-> line, L |-> Apply(1, L), mem |-> mem, open |-> FALSE, lopen |-> FALSE,
                   vopen |-> {n \in idle : Has(L, n)}, opt |-> idle]
-    [] st.t = "distinct" ->
-         IF ~Has(L, st.label) THEN R0(TRUE, line, L, mem, FALSE)
-         ELSE LET v == Get(L, st.label) IN R0(v \notin mem, line, L, mem \cup {v}, FALSE)
+    \* distinct l1, l2, ...: the labels are walked in order; a record lacking the label is kept at once, one whose value for
+    \* that label was seen before is dropped at once, otherwise the value is remembered and the walk goes on
+    \* (what was remembered for earlier labels stays remembered whatever happens at a later one)
+    [] st.t = "distinct" -> LET w == DistinctWalk(DistinctLabels(st), 1, L, mem) IN R0(w.keep, line, L, w.mem, FALSE)
     [] st.t = "drop" -> R0(TRUE, line, {p \in L : ~Selected(st, p)}, mem, FALSE)
     [] st.t = "keep" -> R0(TRUE, line, {p \in L : Selected(st, p)}, mem, FALSE)
     [] st.t = "labelfmt" -> LET L1 == ApplyRenames(st.renames, L) IN R0(TRUE, line, ApplyTmpls(st.tmpls, L1, L1, line), mem, FALSE)
